@@ -1,9 +1,9 @@
 PROPS = {
-    "C04": dict(engine="cryptomon", level="exploration", design="C04",
+    "C04": dict(engine="cryptomon", also=[dict(engine="msgid", race=True)], level="exploration", design="C04",
                 technique="runtime monitor: round-trip + independent reference decrypt of every ciphertext the real cipher emits",
                 text="Real Cipher.Encrypt output is decrypted by the real peer cipher and by an independent MTProto 2.0 reference; header, payload, "
                      "padding length (12..1024) and body length mod 16 checked on every execution; payload lengths 0..4096 step 4 exhaustive, "
-                     "16x16 padding grid exhaustive, random beyond.",
+                     "16x16 padding grid exhaustive, random beyond. Connection level (engine msgid, -race): concurrent requests through a real mtproto.Conn write path with the compression threshold on/off; every captured frame decrypted (+gunzipped) and compared with the request it belongs to.",
                 note="Trusted: harness/refmodel (spec transcription), crypto/aes, crypto/sha256. Inputs sampled beyond the exhaustive grids."),
     "C05": dict(engine="cryptomon", level="exploration", design="C05",
                 technique="runtime mutation oracle over valid ciphertexts (bit flips, truncation, extension, swaps, reflection, foreign keys)",
